@@ -85,7 +85,8 @@ pub fn rules() -> Vec<Rewrite> { vec![
 
     rw!("if-false";  "(if false ?then ?else)" => "?else"),
     rw!("if-true";   "(if true ?then ?else)" => "?then"),
-    rw!("if-not";    "(if (not ?cond) ?then ?else)" => "(if ?cond ?else ?then)"),
+    // NOTE: `(if (not ?cond) ?then ?else) => (if ?cond ?else ?then)` is not valid:
+    // a NULL condition selects ?else on the left side and ?then on the right side.
 
     rw!("avg";       "(avg ?a)" => "(/ (sum ?a) (count ?a))"),
 
